@@ -99,6 +99,8 @@ def fstring_features(src):
         feats.add("backslash-newline")
     if re.search(r"\r(?!\n)", src):
         feats.add("lone-cr")
+    if "format-spec" in feats and re.search(r"\{[^{}\n]*:[^{}\n]*\n", src):
+        feats.add("newline-in-spec")
     return feats
 
 
